@@ -13,7 +13,7 @@ int32_t u_countChar32(const UChar *s,int32_t length){ int32_t n=0,i=0; while((le
 UBool u_strHasMoreChar32Than(const UChar *s,int32_t length,int32_t number){ return u_countChar32(s,length)>number; }
 UChar *u_strncat(UChar *d,const UChar *s,int32_t n){ int32_t i=0,j=0; while(d[i]) i++; while(j<n && s[j]){ d[i+j]=s[j]; j++; } d[i+j]=0; return d; }
 UChar *u_memchr(const UChar *s, UChar c, int32_t count){ int32_t i; for(i=0;i<count;i++) if(s[i]==c) return (UChar*)(s+i); return 0; }
-UChar *u_memmove(UChar *d,const UChar *s,int32_t count){ if(count>0) __builtin_memmove(d,s,(unsigned long)count*2); return d; }
-UChar *u_memcpy(UChar *d,const UChar *s,int32_t count){ if(count>0) __builtin_memcpy(d,s,(unsigned long)count*2); return d; }
+UChar *u_memmove(UChar *d,const UChar *s,int32_t count){ int32_t i; if(d<s){ for(i=0;i<count;i++) d[i]=s[i]; } else if(d>s){ for(i=count-1;i>=0;i--) d[i]=s[i]; } return d; }
+UChar *u_memcpy(UChar *d,const UChar *s,int32_t count){ int32_t i; for(i=0;i<count;i++) d[i]=s[i]; return d; }
 UChar *u_strpbrk(const UChar *s,const UChar *set){ int32_t i,j; for(i=0;s[i];i++) for(j=0;set[j];j++) if(s[i]==set[j]) return (UChar*)(s+i); return 0; }
 const char *u_errorName(UErrorCode code){ return "ICU_ERROR"; }
